@@ -70,7 +70,7 @@ def run_fidelity(outcome, tier, seed):
     reqs, plans = [], []
     for fmt, v, t in docs:
         targets = [to for to in fidelity.FORMATS if gen.representable(v, to)]
-        if tier == "quick":
+        if tier == "quick" and len(t) < 100000:      # the very large boundary documents (collections past 65 536 entries) go to every target
             targets = rng.sample(targets, min(2, len(targets)))
         for to in targets:
             for mode in ("slice", "reader"):
